@@ -382,6 +382,54 @@ def r8(ctx):
             ctx.ok(rule, "read_imports#accumulator-reset", detail)
 
 
+
+def r9(ctx):
+    rule = "C12.R9"
+    ctx.rule(rule, "T6 scope is carried along the import chain: wherever ResolveScope::value_reference_at_depth / definition_at_depth "
+                   "continue the lookup in the exporting module, the ResolveScope they continue on is built with `scope` taken from "
+                   "`self.scope` (the whole list of loaded modules) - a scope rebuilt from the exporting module alone "
+                   "(ResolveScope::from(model)) cannot follow that module's own imports, and a reference that is re-exported through an "
+                   "intermediate module stops resolving")
+    P = ctx.program()
+    n = 0
+    for m in ("value_reference_at_depth", "definition_at_depth"):
+        bs = [b for b in P.lib_bodies("asn1rs_model") if b.name == m and "ResolveScope" in b.path and b.def_kind == "AssocFn"]
+        if len(bs) != 1:
+            ctx.fail(rule, "anchor-lost:" + m, "matched %d bodies" % len(bs))
+            continue
+        b = bs[0]
+        rec = []
+        for body in [b] + P.closures_of(b):
+            O = X.Origins(body, P)
+            for cs in body.calls():
+                if cs.name == m and cs.fn and "ResolveScope" in (cs.fn.get("def") or ""):
+                    a0 = O.call_args(cs)[0]
+                    a0 = R.in_root_terms(P, body, a0) if body is not b else a0
+                    rec.append((cs, a0))
+        if not rec:
+            ctx.fail(rule, m + "#anchor-lost:recursion", "%s no longer continues the lookup in the exporting module" % m, "%s:%d" % (b.file, b.line))
+            continue
+        for cs, a0 in rec:
+            n += 1
+            e = a0
+            while e[0] in ("ref", "deref", "mut"):
+                e = e[1]
+            scope = None
+            if e[0] == "agg" and e[1] == "adt" and e[2].endswith("ResolveScope"):
+                for nm, x in e[4]:
+                    if nm == "scope":
+                        scope = x
+            txt = F.rd(R.positional(scope)) if scope is not None else F.rd(R.positional(e))
+            detail = {"function": b.path, "continues_on": F.rd(R.positional(e))[:160], "scope_field": txt[:120]}
+            sx = X.strip(scope) if scope is not None else None
+            ok = sx is not None and sx[0] == "field" and sx[2] == "scope" and X.strip(sx[1])[0] == "param" and X.strip(sx[1])[1] == 1
+            if not ok:
+                ctx.fail(rule, m + "#scope", "%s continues on `%s`, whose scope is not `self.scope`: modules reached through an import "
+                                             "lose sight of the other loaded modules" % (m, F.rd(R.positional(e))[:80]), cs.loc(), detail)
+            else:
+                ctx.ok(rule, m + "#scope", detail)
+    ctx.floor(rule, n, "C12.R9.sites")
+
 def run(ctx):
     r1_r2(ctx)
     r3(ctx)
@@ -390,3 +438,4 @@ def run(ctx):
     r6(ctx)
     r7(ctx)
     r8(ctx)
+    r9(ctx)
